@@ -283,6 +283,41 @@ apply(const mc_op *op)
                 M.a[i].id = FAIL;
             ann_t *m = &M.a[M.n];
             memset(m, 0, sizeof *m);
+            if (op->a[0] >= 2) {
+                /* file label / file description added through the single-file interface; the description is given by
+                   address and length: it holds a NUL byte and the caller's buffer goes on behind it */
+                int32 f2 = Hopen(PATH, DFACC_RDWR, 0);
+                uint8 buf[32];
+                int   rc2;
+                m->type = op->a[0], m->id = FAIL;
+                if (op->a[0] == 2) {
+                    m->len = make_text(1, 0, M.nops, m->txt);
+                    m->txt[m->len] = 0;
+                    rc2 = f2 == FAIL ? FAIL : DFANaddfid(f2, (char *)m->txt);
+                    m->atag = DFTAG_FID;
+                }
+                else {
+                    m->len = make_text(2, 1, M.nops, buf);
+                    memset(buf + m->len, 'Z', sizeof buf - (size_t)m->len);
+                    memcpy(m->txt, buf, (size_t)m->len);
+                    rc2 = f2 == FAIL ? FAIL : DFANaddfds(f2, (char *)buf, m->len);
+                    m->atag = DFTAG_FD;
+                }
+                if (rc2 == FAIL || Hclose(f2) == FAIL) {
+                    mc_violation("dfan:addf-failed", "DFANaddf%s failed", op->a[0] == 2 ? "id" : "ds");
+                    return 1;
+                }
+                m->aref = DFANlastref();
+                M.n++;
+                fid = Hopen(PATH, DFACC_RDWR, 0);
+                an  = fid == FAIL ? FAIL : ANstart(fid);
+                if (an == FAIL) {
+                    mc_violation("reopen:failed", "Hopen/ANstart after DFAN failed");
+                    return 1;
+                }
+                M.readonly = 0;
+                break;
+            }
             m->type = op->a[0], m->ttag = TTAG(op->a[1]), m->tref = TREF(op->a[1]);
             m->id   = FAIL;
             m->len  = make_text(1, 0, M.nops, m->txt);
@@ -375,6 +410,9 @@ enum_ops(mc_op *out, int max)
         /* two objects with the same reference number and different tags */
         ADD(O_DFAN, 0, 1, 0);
         ADD(O_DFAN, 0, 3, 0);
+        ADD(O_DFAN, 3, 0, 0); /* file description through DFANaddfds */
+        if (thorough)
+            ADD(O_DFAN, 2, 0, 0); /* file label through DFANaddfid */
         if (thorough) {
             ADD(O_DFAN, 1, 1, 0);
             ADD(O_DFAN, 1, 3, 0);
